@@ -607,43 +607,37 @@ def uexp(x):
     return SymReal(_EXP(t))
 
 
-def uf_lemmas(apps: dict):
-    """Instantiated axioms for the uninterpreted SQ / SQRT / EXP over the argument terms met."""
+def uf_lemmas_for(kind, a, existing):
+    """Instantiated axioms for the uninterpreted SQ / SQRT / EXP involving the NEW argument term `a`
+    (single-term axioms plus all pairs with the argument terms met before)."""
     out = []
-    sq = apps.get("SQ", [])
-    for a in sq:
+    if kind == "SQ":
         out.append(_SQ(a) >= 0)
-        out.append(z3.Implies(a == 0, _SQ(a) == 0))
-        out.append(z3.Implies(_SQ(a) == 0, a == 0))
-    for i, a in enumerate(sq):
-        for b in sq[i + 1:]:
-            absa = z3.If(a >= 0, a, -a)
+        out.append((_SQ(a) == 0) == (a == 0))
+        absa = z3.If(a >= 0, a, -a)
+        for b in existing:
             absb = z3.If(b >= 0, b, -b)
             out.append(z3.Implies(absa <= absb, _SQ(a) <= _SQ(b)))
             out.append(z3.Implies(absb <= absa, _SQ(b) <= _SQ(a)))
             out.append(z3.Implies(absa < absb, _SQ(a) < _SQ(b)))
             out.append(z3.Implies(absb < absa, _SQ(b) < _SQ(a)))
-    rt = apps.get("SQRT", [])
-    for a in rt:
+    elif kind == "SQRT":
         out.append(z3.Implies(a >= 0, _SQRT(a) >= 0))
         out.append(z3.Implies(a == 0, _SQRT(a) == 0))
         out.append(z3.Implies(z3.And(a >= 0, _SQRT(a) == 0), a == 0))
-    for i, a in enumerate(rt):
-        for b in rt[i + 1:]:
-            out.append(z3.Implies(z3.And(0 <= a, a <= b), _SQRT(a) <= _SQRT(b)))
-            out.append(z3.Implies(z3.And(0 <= b, b <= a), _SQRT(b) <= _SQRT(a)))
-    # SQRT(SQ(a)) = |a|
-    for a in rt:
         if z3.is_app(a) and a.decl().eq(_SQ):
             x = a.arg(0)
             out.append(_SQRT(a) == z3.If(x >= 0, x, -x))
-    ex = apps.get("EXP", [])
-    for a in ex:
+        for b in existing:
+            out.append(z3.Implies(z3.And(0 <= a, a <= b), _SQRT(a) <= _SQRT(b)))
+            out.append(z3.Implies(z3.And(0 <= b, b <= a), _SQRT(b) <= _SQRT(a)))
+            out.append(z3.Implies(z3.And(0 <= a, a < b), _SQRT(a) < _SQRT(b)))
+            out.append(z3.Implies(z3.And(0 <= b, b < a), _SQRT(b) < _SQRT(a)))
+    elif kind == "EXP":
         out.append(_EXP(a) > 0)
         out.append(z3.Implies(a == 0, _EXP(a) == 1))
         out.append(z3.Implies(a >= 0, _EXP(a) >= 1 + a))
-    for i, a in enumerate(ex):
-        for b in ex[i + 1:]:
+        for b in existing:
             out.append(z3.Implies(a <= b, _EXP(a) <= _EXP(b)))
             out.append(z3.Implies(b <= a, _EXP(b) <= _EXP(a)))
             out.append(z3.Implies(a < b, _EXP(a) < _EXP(b)))
